@@ -92,7 +92,7 @@ def measure_tb():
 
 class C13(Prop):
     id = 'C13'
-    budgets = {'quick': 1400, 'thorough': 22000}
+    budgets = {'quick': 2200, 'thorough': 26000}
     time_limit = {'quick': 45, 'thorough': 540}
     rule = ('ConcurrentTestSuite / ConcurrentStreamTestSuite (half each) over 0-4 hashable workers running 0-3 PlaceHolder tests of arbitrary outcome '
             '(suite flavour: with tags), workers raising from run(), worker-side faults of the caller\'s TestResult (suite), make_tests raising after k sub-suites, '
